@@ -14,7 +14,10 @@ Sub-oracles
   armi/utils/tests/test_asciimaps.py before anything is judged); armi reads my text to my contents; text -> contents ->
   text -> contents is idempotent; indexed contents are drawn as text that reads back to them or refused;
   GridBlueprint round trip through saveToStream;
-* determinism: two constructions of the same text are observationally equal;
+* determinism: two constructions of the same text are observationally equal; construction-order independence: the same designs
+  built in another file order (or the last one alone) have the same composition; the parsed blueprint inputs (custom isotopics
+  vectors, assembly lists, component attributes) are unchanged by construction; a custom isotopic shared by several users gives
+  every unmodified user exactly the written composition even when an earlier user also received a material modification;
 * refusal: planted inconsistencies (unknown specifier, overlapping solids, duplicate names, unequal list lengths, missing
   nuclide flag ...) must raise.
 """
@@ -26,7 +29,8 @@ PROP = "C18"
 LEVEL = "exploration"
 RULE = (
     "generated blueprint documents of three families (hex flats-up third/full and corners-up full with pin-type blocks, optional pin "
-    "lattices, material modifications, custom isotopics, explicit flags, expandTo nuclide flags; Cartesian full/quarter cores of pin "
+    "lattices, material modifications incl. class1/class2 blending, custom isotopics (also one named vector shared by several designs, an "
+    "earlier user modified, a later one not), explicit flags, expandTo nuclide flags; Cartesian full/quarter cores of pin "
     "cells in square/rectangular cans; theta-RZ cores of radial segments on grid bounds), core maps as independently rendered text "
     "or explicit index lists, 1-4 assembly designs of 1-8 blocks; plus pure lattice-map cases (1-9 rings, holes) and planted "
     "inconsistencies one at a time. A case = one document (or one map / one planted inconsistency); distinct = normal form of the "
@@ -47,10 +51,12 @@ EXHAUSTIVE_PART = "text-map formats: every literal fixture map of armi/utils/tes
 FLOORS = {
     "quick": {"placement": 1500, "block": 2500, "component": 12000, "dimension": 20000, "link": 4000, "massfrac": 8000, "density": 6000,
               "matmod": 150, "custom-isotopics": 100, "pin-lattice": 100, "flags": 12000, "map.fixture": 8, "map.read-mine": 250,
-              "map.text-roundtrip": 180, "map.contents-roundtrip": 120, "grid.save-roundtrip": 150, "determinism": 30, "invalid.refused": 30},
+              "map.text-roundtrip": 180, "map.contents-roundtrip": 120, "grid.save-roundtrip": 150, "determinism": 30, "invalid.refused": 30,
+              "inputs-unchanged": 200, "order-independence": 35, "shared-isotopics.unmodified-user": 40, "class-blend": 40},
     "thorough": {"placement": 30000, "block": 50000, "component": 250000, "dimension": 400000, "link": 80000, "massfrac": 160000, "density": 120000,
                  "matmod": 3000, "custom-isotopics": 2000, "pin-lattice": 2000, "flags": 250000, "map.fixture": 8, "map.read-mine": 2500,
-                 "map.text-roundtrip": 1800, "map.contents-roundtrip": 1200, "grid.save-roundtrip": 2000, "determinism": 500, "invalid.refused": 400},
+                 "map.text-roundtrip": 1800, "map.contents-roundtrip": 1200, "grid.save-roundtrip": 2000, "determinism": 500, "invalid.refused": 400,
+                 "inputs-unchanged": 5000, "order-independence": 900, "shared-isotopics.unmodified-user": 1000, "class-blend": 1000},
 }
 TIMEOUT = {"quick": 900, "thorough": 7200}
 ASSUMPTIONS = [
@@ -61,6 +67,8 @@ ASSUMPTIONS = [
     "calls applyInputParams with the modification it wrote for that block/component (the materials package is data here; routing, "
     "custom isotopics, elemental expansion and the conversion to number densities are the blueprint layer being judged)",
     "settings are the defaults (inputHeightsConsideredHot=True, xsKernel MC2v3: C stays elemental, HE->HE4, O->O16, W without W180 unless expandTo is given)",
+    "a component carrying BOTH custom isotopics and a material modification is built but its composition is not judged (the combination "
+    "is not documented); every other user of the same isotopics vector is judged exactly",
     "text-map formats are taken from the docstrings of armi/utils/asciimaps.py and the literal fixtures of its test module (data)",
 ]
 
@@ -286,6 +294,8 @@ def _rstrip_ph(ln):
 ADJECTIVES = ["inner", "outer", "middle", "lower", "upper", "axial", "radial", "a", "b", "c", "test", "primary", "secondary"]
 KIND_WORD = {"fuel": "fuel", "control": "control", "shield": "shield", "reflector": "reflector", "plenum": "plenum"}
 ACCEPTED_MODS = {"UZr": ("U235_wt_frac", "ZR_wt_frac"), "UO2": ("U235_wt_frac", "TD_frac"), "B4C": ("B10_wt_frac", "TD_frac")}
+BLEND_KEYS = ("class1_wt_frac", "class1_custom_isotopics", "class2_custom_isotopics")  # FuelMaterial: remix the heavy metal from two feeds
+BLEND_MATS = ("UZr", "UO2")
 ISO_ELEMENTS = ["FE", "CR", "NI", "MO", "MN", "SI", "C", "ZR", "NA", "O", "W", "V", "HE", "U"]
 ISO_NUCLIDES = ["U235", "U238", "PU239", "PU240", "B10", "B11", "AL27", "U234"]
 
@@ -504,6 +514,8 @@ def hex_document(rng, size=None):
             a["azimuthal mesh points"] = rng.randint(1, 7)
         add_material_mods(rng, spec, a)
         spec["assemblies"][aname] = a
+    if rng.random() < .3:
+        shared_isotopics_scenario(rng, spec)
     add_custom_isotopics(rng, spec)
     g = core_grid(rng, mapkind, specs, R=size)
     if rng.random() < .4:
@@ -597,8 +609,129 @@ def add_material_mods(rng, spec, a):
         byc = {c: m for c, m in byc.items() if all(_comp_in_block_where_set(spec, a, c, m))}
         if byc:
             mm["by component"] = byc
+    if rng.random() < .3:
+        add_blend(rng, spec, a, mm, mats)
     if mm:
         a["material modifications"] = mm
+
+
+def feed_isotopics(rng, spec):
+    """Two heavy-metal feed vectors (mass fractions of isotopes, each summing to one) as custom isotopics entries."""
+    names = []
+    for pool in (["U235", "U238", "U234"], ["PU239", "PU240", "U238", "U235"]):
+        nm = "feed%d" % (len(spec["custom isotopics"]) + 1)
+        sel = rng.sample(pool, rng.randint(2, len(pool)))
+        vals = [rng.uniform(.05, 1.0) for _ in sel]
+        tot = sum(vals)
+        fr = [round(v / tot, 8) for v in vals]
+        fr[-1] = round(1.0 - sum(fr[:-1]), 10)
+        iso = {"input format": "mass fractions"}
+        iso.update(dict(zip(sel, fr)))
+        spec["custom isotopics"][nm] = iso
+        names.append(nm)
+    return names
+
+
+def add_blend(rng, spec, a, mm, mats, only_index=None):
+    """class1/class2 blending (FuelMaterial) on blocks whose fuel is UZr or UO2."""
+    idx = [k for k, m in enumerate(mats) if m in BLEND_MATS and (only_index is None or k == only_index)]
+    if not idx:
+        return False
+    if only_index is None:
+        idx = [k for k in idx if rng.random() < .6] or idx[:1]
+    f1, f2 = feed_isotopics(rng, spec)
+    n = len(a["blocks"])
+    for key in BLEND_KEYS:
+        mm.setdefault(key, [""] * n)
+    for k in idx:
+        mm["class1_wt_frac"][k] = round(rng.uniform(.05, .95), 4)
+        mm["class1_custom_isotopics"][k] = f1
+        mm["class2_custom_isotopics"][k] = f2
+    return True
+
+
+def shared_isotopics_scenario(rng, spec):
+    """One named custom isotopic shared by several users in construction order (assembly designs in file order, blocks bottom-up):
+    an EARLIER user that also receives a material modification (ZR_wt_frac / U235_wt_frac / class1-class2 blending on a UZr fuel
+    carrying `isotopics:`), and a LATER user of the same isotopic without any modification, which must come out exactly as the
+    isotopics text says whatever was built before it."""
+    designs = list(spec["assemblies"].items())
+    a0 = designs[0][1]
+    cand = [k for k, bn in enumerate(a0["blocks"]) if spec["blocks"][bn]["components"][0]["name"] == "fuel"]
+    if not cand:
+        return
+    k0 = min(cand)
+    bn = a0["blocks"][k0]
+    if len(designs) >= 2:
+        an1, a1 = designs[-1] if rng.random() < .6 else rng.choice(designs[1:])
+        k1 = rng.randrange(len(a1["blocks"]))
+    else:
+        an1, a1 = designs[0]
+        later = [k for k in range(len(a1["blocks"])) if k > k0]
+        if not later:
+            return
+        k1 = rng.choice(later)
+    fuel = spec["blocks"][bn]["components"][0]
+    fuel["material"] = "UZr"
+    # the shared vector
+    sel = ["ZR", "U235", "U238"] + rng.sample(["PU239", "U234", "PU240"], rng.randint(0, 2))
+    vals = [rng.uniform(.05, .2)] + [rng.uniform(.05, 1.0) for _ in sel[1:]]
+    tot = sum(vals)
+    fr = [round(v / tot, 8) for v in vals]
+    fr[-1] = round(1.0 - sum(fr[:-1]), 10)
+    iso = {"input format": "mass fractions"}
+    if rng.random() < .3:
+        iso["density"] = round(rng.uniform(8.0, 17.0), 4)
+    iso.update(dict(zip(sel, fr)))
+    nm = "shared%d" % (len(spec["custom isotopics"]) + 1)
+    spec["custom isotopics"][nm] = iso
+    fuel["isotopics"] = nm
+    if rng.random() < .4:  # one more (unmodified-material) user of the same vector: a structural component of another block
+        others = [c for b2, bs in spec["blocks"].items() if b2 != bn for c in bs["components"] if c["material"] in ("HT9", "Zr", "Inconel600") and not c.get("isotopics")]
+        if others:
+            rng.choice(others)["isotopics"] = nm
+    # the earlier user is modified at (a0, k0)
+    mm = a0.setdefault("material modifications", {})
+    n0 = len(a0["blocks"])
+    how = rng.choice(["zr", "u235", "both", "by-component", "blend"])
+    if how == "blend":
+        mats = [None] * n0
+        mats[k0] = "UZr"
+        add_blend(rng, spec, a0, mm, mats, only_index=k0)
+    elif how == "by-component":
+        mm.setdefault("by component", {}).setdefault("fuel", {}).setdefault("ZR_wt_frac", [""] * n0)[k0] = round(rng.uniform(.02, .3), 4)
+    else:
+        if how in ("zr", "both"):
+            mm.setdefault("ZR_wt_frac", [""] * n0)[k0] = round(rng.uniform(.02, .3), 4)
+        if how in ("u235", "both"):
+            mm.setdefault("U235_wt_frac", [""] * n0)[k0] = round(rng.uniform(.01, .9), 4)
+    # the later user is the same block design, with no modification reaching it
+    a1["blocks"][k1] = bn
+    mm1 = a1.get("material modifications") or {}
+    for key, vals_ in mm1.items():
+        if key == "by component":
+            for mods in vals_.values():
+                for lst in mods.values():
+                    lst[k1] = ""
+        else:
+            vals_[k1] = ""
+    # entries that no longer fit the blocks they address are dropped (a by-component entry must name a component of its block)
+    if mm1.get("by component"):
+        mm1["by component"] = {c: m for c, m in mm1["by component"].items() if all(_comp_in_block_where_set(spec, a1, c, m))}
+        if not mm1["by component"]:
+            del mm1["by component"]
+    for ad in spec["assemblies"].values():  # the block design may be reused elsewhere: modifications reaching it there must stay legal for UZr
+        mmx = ad.get("material modifications") or {}
+        for k, b2 in enumerate(ad["blocks"]):
+            if b2 == bn:
+                for key in ("TD_frac", "B10_wt_frac"):
+                    if key in mmx:
+                        mmx[key][k] = ""
+                for cname, mods in (mmx.get("by component") or {}).items():
+                    for key in ("TD_frac", "B10_wt_frac"):
+                        if key in mods:
+                            mods[key][k] = ""
+    spec["shared"] = {"name": nm, "block": bn, "earlier": [designs[0][0], k0], "later": [an1, k1], "how": how}
 
 
 def _comp_in_block_where_set(spec, a, cname, mods):
@@ -646,7 +779,7 @@ def add_custom_isotopics(rng, spec):
     n = 0
     for bn, bs in spec["blocks"].items():
         for c in bs["components"]:
-            if rng.random() > .2 or c["material"] == "Void":
+            if rng.random() > .2 or c["material"] == "Void" or c.get("isotopics"):
                 continue
             if c["material"] in ACCEPTED_MODS and bn in modded:
                 continue
@@ -805,13 +938,19 @@ class Reading:
         harness through the material's own public entry point. Returns (instance, consistent?)."""
         from armi import materials
 
-        key = (matname, tuple(sorted(mods.items())))
+        key = (matname, tuple(sorted((k, str(v)) for k, v in mods.items())))
         if key not in self._matcache:
             m = materials.resolveMaterialClassByName(matname)()
             if mods:
-                m.applyInputParams(**mods)
+                kw = dict(mods)
+                if "class1_wt_frac" in kw:
+                    kw["customIsotopics"] = {n: self.custom(n)[0] for n in self.spec["custom isotopics"]}
+                m.applyInputParams(**kw)
             self._matcache[key] = m
         return self._matcache[key]
+
+    def heavy(self, name):
+        return self.nb.byName[name].isHeavyMetal()
 
 
 def modified_massfracs(matname, mods, default_w, A):
@@ -847,7 +986,16 @@ def reference_composition(rd, c, mods, block_has_mods, rec):
     mat = c["material"]
     Thot, Tin = c["Thot"], c["Tinput"]
     relevant = {k: v for k, v in mods.items() if k in ACCEPTED_MODS.get(mat, ())}
+    blend = None
+    if mat in BLEND_MATS and mods.get("class1_wt_frac"):
+        blend = {k: mods[k] for k in BLEND_KEYS}
     res = {"ctx": "default", "w": None, "rho": None, "skip_rho": None, "N": None}
+    if c.get("isotopics") and mat in ACCEPTED_MODS and block_has_mods:
+        # custom isotopics AND a material modification on one component: the code applies the isotopics first and lets the
+        # modification "have the final word", but what the combination means is not documented -> its composition is not judged
+        res["ctx"] = "custom-isotopics+modification"
+        res["unjudged"] = True
+        return res
     if mat == "Void":
         res.update(ctx="void", w={}, rho=0.0)
         return res
@@ -873,7 +1021,21 @@ def reference_composition(rd, c, mods, block_has_mods, rec):
                 res["skip_rho"] = "custom density on a library material with Thot != Tinput (thermal scaling of the override is not part of the documented semantics judged here)"
             return res
     else:
-        if relevant:
+        if blend:
+            # FuelMaterial class1/class2 blending (docstring of densityTools.applyIsotopicsMix): the heavy-metal share of the material is
+            # kept and redistributed as c1*feed1 + (1-c1)*feed2; everything that is not heavy metal stays
+            res["ctx"] = "matmod-blend/%s%s" % (mat, ("+" + "+".join(sorted(relevant))) if relevant else "")
+            w = modified_massfracs(mat, relevant, default_w, rd.A)
+            tot = sum(w.values())
+            hm = sum(v for n, v in w.items() if rd.heavy(n)) / tot
+            f1, f2 = rd.custom(blend["class1_custom_isotopics"])[0], rd.custom(blend["class2_custom_isotopics"])[0]
+            c1 = blend["class1_wt_frac"]
+            for n in set(f1) | set(f2) | set(w):
+                if rd.heavy(n):
+                    w[n] = hm * (c1 * f1.get(n, 0.0) + (1 - c1) * f2.get(n, 0.0))
+            res["w"] = rd.expand(w)
+            ref = rd.material_reference(mat, dict(relevant, **blend))
+        elif relevant:
             res["ctx"] = "matmod/%s/%s" % (mat, "+".join(sorted(relevant)))
             res["w"] = rd.expand(modified_massfracs(mat, relevant, default_w, rd.A))
             ref = rd.material_reference(mat, relevant)
@@ -916,8 +1078,79 @@ def build(spec, text=None):
         cs = cs.modified(newSettings=spec["settings"])
     with quiet():
         bp = blueprints.Blueprints.load(io.StringIO(text))
+        bp._verif_snapshot = snapshot_inputs(bp)
         r = reactors.factory(cs, bp)
     return r, bp, text
+
+
+def _plain(v):
+    while hasattr(v, "value") and type(v).__name__ == "ComponentDimension":
+        v = v.value
+    if isinstance(v, dict):
+        return {str(k): _plain(x) for k, x in v.items()}
+    if isinstance(v, (list, tuple)):
+        return [_plain(x) for x in v]
+    return v
+
+
+def snapshot_inputs(bp):
+    """What the document said, as parsed: custom isotopics (entries, mass fractions, density), assembly designs (lists and
+    modifications), component designs (every attribute).  Construction must leave these alone."""
+    out = {"custom-isotopics": {}, "assembly-design": {}, "component-design": {}}
+    for name, ci in (bp.customIsotopics.items() if bp.customIsotopics else []):
+        out["custom-isotopics"][name] = {"entries": dict(ci.items()), "massFracs": dict(ci.massFracs), "density": ci.density, "format": ci.inputFormat}
+    for a in bp.assemDesigns:
+        mm = a.materialModifications
+        out["assembly-design"][a.name] = {"specifier": a.specifier, "height": list(a.height), "xs": list(a.xsTypes), "mesh": list(a.axialMeshPoints), "blocks": [b.name for b in a.blocks],
+                                          "mods": {k: list(v) for k, v in mm.items()}, "by-component": {c: {k: list(v) for k, v in m.items()} for c, m in mm.byComponent.items()}}
+    seen = set()
+    for a in bp.assemDesigns:
+        for bd in a.blocks:
+            if id(bd) in seen:
+                continue
+            seen.add(id(bd))
+            for cd in bd:
+                out["component-design"]["%s/%s" % (bd.name, cd.name)] = {at.name: _plain(at.get_value(cd)) for at in cd.attributes}
+    return out
+
+
+def check_inputs_unchanged(rec, spec, bp, text):
+    before = bp._verif_snapshot
+    after = snapshot_inputs(bp)
+    rec.hit("inputs-unchanged")
+    for section in ("custom-isotopics", "assembly-design", "component-design"):
+        d = first_difference(before[section], after[section], section)
+        if d:
+            rec.violation("blueprint-inputs-mutated/" + section, "building the reactor changed the parsed blueprint input: %s" % d, doc_witness(spec, text))
+
+
+def design_compositions(bp):
+    """design name -> per block, per component name: number densities of the assemblies the blueprints built (bp.assemblies)."""
+    out = {}
+    for name, a in bp.assemblies.items():
+        out[name] = [{c.name: sorted((n, float(v)) for n, v in c.p.numberDensities.items()) for c in b} for b in a]
+    return out
+
+
+def reordered(rng, spec):
+    """The same designs in another construction order: assemblies reversed in the file (when the axial meshes allow any design to be
+    the reference) or the last design built alone.  Returns (spec2, how)."""
+    designs = list(spec["assemblies"].items())
+    same_mesh = all(a["height"] == designs[0][1]["height"] for _, a in designs)
+    if len(designs) < 2:
+        return None, None
+    spec2 = dict(spec)
+    if (same_mesh or spec.get("settings", {}).get("detailedAxialExpansion")) and rng.random() < .7:
+        spec2["assemblies"] = dict(reversed(designs))
+        return spec2, "reversed"
+    keep = spec["shared"]["later"][0] if spec.get("shared") else designs[-1][0]
+    spec2["assemblies"] = {keep: spec["assemblies"][keep]}
+    sp = spec["assemblies"][keep]["specifier"]
+    grids = dict(spec["grids"])
+    gname = spec["systems"]["core"]["grid name"]
+    grids[gname] = dict(grids[gname], contents={k: sp for k in grids[gname]["contents"]})
+    spec2["grids"] = grids
+    return spec2, "alone"
 
 
 def close(a, b, rel, absol=0.0):
@@ -1113,11 +1346,18 @@ def compare_components(rec, rd, spec, text, b, bs, bn, ad, k, W):
         else:
             ef = words_to_flags(cs_["name"], False)
         comp_ref = reference_composition(rd, cs_, mods_for(ad, k, cs_["name"]), anymods, rec)
-        if comp_ref["w"] is not None and not cs_.get("flags"):
+        if comp_ref.get("unjudged") and not cs_.get("flags"):
+            held = set(c.getNuclides())  # composition not judged: the depletable flag follows whatever it holds
+            if any(n in rd.active for n in held):
+                ef |= Flags.DEPLETABLE
+        elif comp_ref["w"] is not None and not cs_.get("flags"):
             if any(n in rd.active for n in comp_ref["w"]):
                 ef |= Flags.DEPLETABLE
         if c.p.flags != ef:
             X("component/flags/%s" % ("explicit" if cs_.get("flags") else "from-name"), "%s flags %r, expected %r" % (c.name, c.p.flags, ef))
+        shared = spec.get("shared")
+        if shared and cs_.get("isotopics") == shared["name"] and not comp_ref.get("unjudged"):
+            rec.hit("shared-isotopics.unmodified-user")
         compare_composition(rec, rd, c, cs_, comp_ref, bool(ef & Flags.DEPLETABLE), X)
 
 
@@ -1142,8 +1382,13 @@ def bs_comp(bs, name):
 def compare_composition(rec, rd, c, cs_, ref, depletable, X):
     nd = {n: float(v) for n, v in c.p.numberDensities.items()}
     ctx = ref["ctx"]
+    if ref.get("unjudged"):
+        rec.skip("composition of a component carrying both custom isotopics and a material modification (combination not documented)")
+        return
     if ctx.startswith("matmod"):
         rec.hit("matmod")
+    if ctx.startswith("matmod-blend"):
+        rec.hit("class-blend")
     if ctx.startswith("custom"):
         rec.hit("custom-isotopics")
     w = ref["w"]
@@ -1316,6 +1561,8 @@ def cart_document(rng, size=None):
             a["flags"] = rng.choice(["fuel", "control test", "reflector outer"])
         add_material_mods(rng, spec, a)
         spec["assemblies"][aname] = a
+    if rng.random() < .3:
+        shared_isotopics_scenario(rng, spec)
     add_custom_isotopics(rng, spec)
     mode = rng.choice(["full-odd", "full-even", "quarter", "quarter-center"])
     n = rng.choice([1, 2, 3, 3, 4, 5]) if size is None else size
@@ -1972,9 +2219,26 @@ def run_docs(sh, rec):
             continue
         try:
             nloc = compare_reactor(rec, spec, r, text)
+            check_inputs_unchanged(rec, spec, bp, text)
         except Exception as e:
             rec.crash("compare/%s" % sh["family"], e, doc_witness(spec, text, case=i))
             continue
+        if spec.get("shared") or i % 5 == 1:  # construction-order independence
+            spec2, how = reordered(rng, spec)
+            if spec2 is not None:
+                try:
+                    text2 = render(spec2)
+                    r2, bp2, _ = build(spec2, text2)
+                    rec.hit("order-independence")
+                    c1, c2 = design_compositions(bp), design_compositions(bp2)
+                    for name in c2:
+                        d = first_difference(c1[name], c2[name], "design %r" % name)
+                        if d:
+                            rec.violation("construction-order-dependence/%s" % how, "a design's composition depends on what was built before it (%s): %s" % (how, d),
+                                          doc_witness(spec, text, case=i, other_order=text2[:4000]))
+                            break
+                except Exception as e:
+                    rec.crash("rebuild-reordered/%s/%s" % (sh["family"], how), e, doc_witness(spec, text, case=i))
         if i % 4 == 0:  # determinism: the same text, built again
             try:
                 r2, _, _ = build(spec, text)
